@@ -23,6 +23,7 @@ Definition is_deposit_of (a : string) (o : op) : bool :=
   match o with
   | Deposit _ b _ => String.eqb a b
   | GenesisLoad r => String.eqb a (ur_asset r)
+  | NstBalance _ b x => String.eqb a b && (0 <? x)     (* positive native-restaking adjustment *)
   | _ => false
   end.
 
